@@ -33,6 +33,13 @@ CLAIMS = {
          "+, concatenation preserves order, x in l iff some element equals x. Tied to objects.rs/functions.rs by all maps with <= 3 keys "
          "over a mixed 8-key alphabet x 18 query keys x 5 forms (also evaluated as an agreement law on the implementation's own answers), "
          "all short lists x all indices, byte-offset string indexing and random additive-law cases."),
+ "C01": ("PARTIAL. A Gallina lexer (maximal munch over the token rules of CEL.g4), literal decoders and a fuelled recursive-descent parser "
+         "with the visitor's checks and macro expansion form compile : source -> program | reject | out-of-fuel. Proved: compile is total with "
+         "these outcomes; pos_for (positions of macro errors) exists for every offset in the source and never points beyond it; characters no "
+         "token rule starts with, and unterminated one-quote literals, do not lex. Not proved: soundness w.r.t. a derivation relation and fuel "
+         "sufficiency. The tie to the real ANTLR parser is the correspondence run: accept/reject AND the resulting tree are compared on all "
+         "token strings up to length 4 over a 16-token alphabet (and 5 more alphabets up to length 3), random characters/tokens, generated "
+         "valid programs and their mutations; panics, empty error lists, empty error texts and out-of-source positions are failing inputs."),
  "C06": ("Theorems that Eval.eval (a structural Fixpoint transcribing Value::resolve) returns the left operand's outcome "
          "and host-call log alone when && / || are decided by it, evaluates exactly one branch of ?:, and propagates a "
          "left error - for every context and operand expression, hence at every depth and inside macro bodies. Tied to the "
